@@ -21,7 +21,8 @@ Q2Addrs == {None, 0, 8, 12}
 Q2Sizes == {None}
 Q2Aligns == {None, 16}
 Q2Palette == {"u8", "u16", "u32", "u64", "u128", "i8", "i16", "i32", "i64", "i128", "f32", "f64", "bool",
-              "cptr", "pvoid", "arr8x3", "arr16x2", "arr32x2", "arr32x0", "unk2", "N", "E", "X", "S", "Z", "arrNx2"}
+              "cptr", "pvoid", "arr8x3", "arr16x2", "arr32x2", "arr32x0", "unk2", "N", "E", "X", "S", "Z", "arrNx2",
+              "E64", "E128", "arr8x3x2"}
 
 T1Palette == {"u8", "u16", "u32", "u64", "cptr", "arr8x3"}
 T1Sizes == {None, 16}
@@ -52,6 +53,9 @@ HelperS == [TypeDef("S", "pub", <<Field("a", "pub", <<>>, TNm("u64"), None, FALS
               EXCEPT !.size = 12, !.align = 8]
 HelperE == EnumDef("E", "pub", TNm("u16"), <<Variant("A", NumNone, FALSE), Variant("B", NumNone, FALSE)>>)
 HelperX == ExtType("X", 8, 4)
+(* enums over bases wider than a pointer (at one width or at both) *)
+HelperE64 == EnumDef("E64", "pub", TNm("u64"), <<Variant("A", NumNone, FALSE), Variant("B", NumNone, FALSE)>>)
+HelperE128 == EnumDef("E128", "pub", TNm("u128"), <<Variant("A", NumNone, FALSE), Variant("B", NumNone, FALSE)>>)
 HelperDN == [TypeDef("DN", "pub", <<Field("a", "pub", <<>>, TNm("u16"), None, FALSE),
                                      Field("b", "pub", <<>>, TNm("u16"), None, FALSE)>>)
                EXCEPT !.align = 2, !.defaultable = TRUE]
@@ -71,7 +75,8 @@ PaletteTypes ==
    unk2 |-> TUnk(2), unk0 |-> TUnk(0),
    N |-> TNm("N"), arrNx2 |-> TArr(TNm("N"), 2), Z |-> TNm("Z"), E |-> TNm("E"), X |-> TNm("X"),
    pN |-> TCPtr(TNm("N")), S |-> TNm("S"), bN |-> TNm("N"), bV |-> TNm("V"),
-   dN |-> TNm("DN"), dE |-> TNm("DE"), arrdNx2 |-> TArr(TNm("DN"), 2)]
+   dN |-> TNm("DN"), dE |-> TNm("DE"), arrdNx2 |-> TArr(TNm("DN"), 2),
+   E64 |-> TNm("E64"), E128 |-> TNm("E128"), arr8x3x2 |-> TArr(TArr(TNm("u8"), 3), 2)]
 
 RECURSIVE Mentions(_, _)
 Mentions(ty, n) ==
@@ -102,6 +107,8 @@ MkInput(ptr, fs, size, align, packed, vft, vpos, dflt) ==
                  \o (IF uses("E") THEN <<HelperE>> ELSE <<>>)
                  \o (IF uses("S") THEN <<HelperS>> ELSE <<>>)
                  \o (IF uses("V") THEN <<HelperV>> ELSE <<>>)
+                 \o (IF uses("E64") THEN <<HelperE64>> ELSE <<>>)
+                 \o (IF uses("E128") THEN <<HelperE128>> ELSE <<>>)
                  \o (IF uses("DN") THEN <<HelperDN>> ELSE <<>>)
                  \o (IF uses("DE") THEN <<HelperDE>> ELSE <<>>)
       T == [TypeDef("T", "pub", fields) EXCEPT !.size = size, !.align = align,
@@ -133,7 +140,7 @@ PlainInput ==
   /\ input.mods[1].defs[TIdx].vft.pos = 0
   /\ ~input.mods[1].defs[TIdx].defaultable
   /\ \A i \in DOMAIN input.mods[1].defs[TIdx].fields :
-     ~(\E n \in {"N", "Z", "E", "X", "S", "V", "DN", "DE"} : Mentions(input.mods[1].defs[TIdx].fields[i].ty, n))
+     ~(\E n \in {"N", "Z", "E", "X", "S", "V", "DN", "DE", "E64", "E128"} : Mentions(input.mods[1].defs[TIdx].fields[i].ty, n))
 
 (* known finding classes (section 4 of DESIGN.md); each is FALSE once the  *)
 (* corresponding repair is in                                              *)
